@@ -4,7 +4,8 @@ package arp
 
 // C11 (plain flavour), parts (a) and (b) of DESIGN.md section C11:
 //
-// (a) ARP frames -> real ScanMethod.ProcessPacketData -> real JSON logger -> printed line ->
+// (a) ARP frames -> real ScanMethod.ProcessPacketData -> real MarshalJSON + newline (= what the JSON
+//     logger writes) -> printed line ->
 //     real FillCache on a fresh cache -> Get with the address as 4-byte and as 16-byte net.IP.
 //     Frames: sender address x sender MAC (three special ones and EVERY OUI prefix of gopacket's
 //     vendor table) x op x padding. Plus every sequence of printed lines over a small alphabet
@@ -15,16 +16,13 @@ package arp
 
 import (
 	"bytes"
-	"context"
 	"encoding/hex"
 	"fmt"
 	"net"
 	"sort"
 	"strings"
-	"time"
 
 	"github.com/google/gopacket/macs"
-	sxlog "github.com/v-byte-cpu/sx/command/log"
 	"github.com/v-byte-cpu/sx/pkg/scan"
 	"github.com/v-byte-cpu/sx/zzref"
 	"verif/vs/drv"
@@ -82,8 +80,6 @@ type c11h struct {
 	c     *drv.Ctx
 	sm    *ScanMethod
 	rec   *c11rec
-	lg    sxlog.Logger
-	buf   *bytes.Buffer
 	canon map[string]bool
 	idx   int
 }
@@ -91,20 +87,12 @@ type c11h struct {
 func (h *c11h) fresh() bool {
 	h.rec = &c11rec{}
 	h.sm = NewScanMethod(nil, h.rec)
-	h.buf = &bytes.Buffer{}
-	lg, err := sxlog.NewLogger(h.buf, "arp", sxlog.JSON())
-	if err != nil {
-		h.c.Infra("NewLogger: %v", err)
-		return false
-	}
-	h.lg = lg
 	return true
 }
 
-// print: frame -> processor -> logger; returns what the ARP scan printed for it.
+// print: frame -> processor -> MarshalJSON + newline; returns what the ARP scan prints for it.
 func (h *c11h) print(f c11frame) (out []byte, class, detail string) {
 	h.rec.got = h.rec.got[:0]
-	h.buf.Reset()
 	var perr error
 	if p := func() (p any) {
 		defer func() { p = recover() }()
@@ -120,31 +108,21 @@ func (h *c11h) print(f c11frame) (out []byte, class, detail string) {
 	if len(h.rec.got) != 1 {
 		return nil, "not-one-record", fmt.Sprintf("processor produced %d results for one well-formed ARP frame", len(h.rec.got))
 	}
-	ch := make(chan scan.Result, 1)
-	ch <- h.rec.got[0]
-	close(ch)
-	done := make(chan string, 1)
-	go func() {
-		defer func() {
-			if r := recover(); r != nil {
-				done <- fmt.Sprintf("panic: %v", r)
-			}
-		}()
-		h.lg.LogResults(context.Background(), ch)
-		done <- ""
-	}()
-	t := time.NewTimer(60 * time.Second)
-	defer t.Stop()
-	select {
-	case fault := <-done:
-		if fault != "" {
-			return nil, "logger-panic", fault
-		}
-	case <-t.C:
-		h.fresh()
-		return nil, "logger-does-not-return", "LogResults did not return within 60 s after the channel was closed"
+	// what the JSON logger writes for a result: MarshalJSON + newline (command/log/writer_json.go;
+	// the logger itself cannot be imported here: command/log's C14 harness imports this package)
+	var data []byte
+	var merr error
+	if p := func() (p any) {
+		defer func() { p = recover() }()
+		data, merr = h.rec.got[0].MarshalJSON()
+		return nil
+	}(); p != nil {
+		return nil, "marshal-panic", fmt.Sprintf("MarshalJSON panicked: %v", p)
 	}
-	return append([]byte(nil), h.buf.Bytes()...), "", ""
+	if merr != nil {
+		return nil, "marshal-error", fmt.Sprintf("MarshalJSON: %v (the logger prints nothing for this result)", merr)
+	}
+	return append(append([]byte(nil), data...), '\n'), "", ""
 }
 
 // c11load: the real loader on a fresh cache.
@@ -187,7 +165,7 @@ func (h *c11h) judgeFrame(f c11frame) (class, detail string, line []byte) {
 		return class, detail, out
 	}
 	if len(out) == 0 || out[len(out)-1] != '\n' || bytes.Count(out, []byte{'\n'}) != 1 {
-		return "not-one-line", fmt.Sprintf("the logger printed %q for one result", out), out
+		return "not-one-line", fmt.Sprintf("%q would be printed for one result", out), out
 	}
 	line = out[:len(out)-1]
 	// what was printed, read independently
@@ -195,8 +173,7 @@ func (h *c11h) judgeFrame(f c11frame) (class, detail string, line []byte) {
 	if err != nil {
 		return "line-does-not-parse", fmt.Sprintf("strict RFC 8259 reader: %v; line %q", err, line), out
 	}
-	if v.Kind != zzref.JSONObject || len(v.Dup) > 0 || strings.Join(v.Keys(), ",") != "ip,mac,vendor" && len(v.Obj) != 3 ||
-		v.Get("ip") == nil || v.Get("mac") == nil || v.Get("vendor") == nil || len(v.Obj) != 3 {
+	if v.Kind != zzref.JSONObject || len(v.Dup) > 0 || len(v.Obj) != 3 || v.Get("ip") == nil || v.Get("mac") == nil || v.Get("vendor") == nil {
 		return "keys", fmt.Sprintf("line is not an object with exactly the keys ip, mac, vendor: %q", line), out
 	}
 	if g := v.Get("ip"); g.Kind != zzref.JSONString || g.Str != f.ipString() {
@@ -233,10 +210,13 @@ func c11ouis() [][3]byte {
 }
 
 // c11frames: all frames of part (a) in canonical order (special MACs first).
-func c11frames() []c11frame {
+func c11frames(thorough bool) []c11frame {
 	macsList := [][6]byte{{0, 0, 0, 0, 0, 0}, {0xff, 0xff, 0xff, 0xff, 0xff, 0xff}, {0x02, 0x00, 0x5e, 0x10, 0x00, 0x01}}
 	for _, o := range c11ouis() {
 		macsList = append(macsList, [6]byte{o[0], o[1], o[2], 0x12, 0x34, 0x56})
+		if thorough {
+			macsList = append(macsList, [6]byte{o[0], o[1], o[2], 0, 0, 0}, [6]byte{o[0], o[1], o[2], 0xff, 0xff, 0xff})
+		}
 	}
 	var fs []c11frame
 	for _, m := range macsList {
@@ -257,10 +237,9 @@ func (h *c11h) mine() bool {
 }
 
 func (h *c11h) frames() {
-	fs := c11frames()
+	fs := c11frames(h.c.Thorough())
 	h.c.Set("frames_total", int64(len(fs)))
 	h.c.Set("oui_prefixes", int64(len(macs.ValidMACPrefixMap)))
-	vendors := map[string]bool{}
 	for _, f := range fs {
 		if !h.mine() {
 			continue
@@ -270,9 +249,8 @@ func (h *c11h) frames() {
 		}
 		h.c.Eval(1)
 		vendor := macs.ValidMACPrefixMap[[3]byte{f.mac[0], f.mac[1], f.mac[2]}]
-		if !vendors[vendor] {
-			vendors[vendor] = true
-			h.c.Nontrivial(1) // a vendor text not seen before by this shard
+		if vendor != "" {
+			h.c.Nontrivial(1) // the record carries free text from the vendor table
 		}
 		class, _, out := h.judgeFrame(f)
 		if class == "" {
@@ -347,7 +325,7 @@ func c11judgeLines(seq []c11line) (class, detail string) {
 	last := map[[4]byte][]byte{}
 	for _, l := range seq {
 		file = append(file, l.text...)
-		last[l.ip] = l.mac[:]
+		last[l.ip] = append([]byte(nil), l.mac[:]...)
 	}
 	cache, err, p := c11load(file)
 	if p != nil {
@@ -400,7 +378,7 @@ func (h *c11h) lineSequences() {
 	al := h.printedAlphabet()
 	maxLen := 3
 	if h.c.Thorough() {
-		maxLen = 4
+		maxLen = 5
 	}
 	h.c.Set("printed_line_alphabet", int64(len(al)))
 	pick := func(seq []int) []c11line {
@@ -497,10 +475,13 @@ func c11judgeFile(seq []int, finalNL bool) (class, detail, outcome string) {
 		if i < len(seq)-1 || finalNL {
 			sb.WriteByte('\n')
 		}
-		if k.valid {
+		switch {
+		case k.valid:
 			last[k.ip] = k.mac
 			own[k.ip] = append(own[k.ip], k.mac)
-		} else {
+		case k.text == "" && i == len(seq)-1 && !finalNL:
+			// nothing after the last newline: not a line at all
+		default:
 			allValid = false
 		}
 	}
@@ -560,7 +541,7 @@ func c11fileKey(seq []int, finalNL bool) string {
 func (h *c11h) files() {
 	maxLen := 3
 	if h.c.Thorough() {
-		maxLen = 4
+		maxLen = 5
 	}
 	// the empty file
 	if h.mine() {
@@ -584,6 +565,10 @@ func (h *c11h) files() {
 			class, _, outcome := c11judgeFile(seq, finalNL)
 			if class == "" {
 				h.c.Outcome(outcome)
+				if outcome == "file:with-junk:accepted" && !h.canon["junk-accepted"] {
+					h.canon["junk-accepted"] = true
+					h.c.Note("a file with a junk line is accepted by the loader (not demanded either way by the statement), first: %s", c11fileKey(seq, finalNL))
+				}
 				return true
 			}
 			h.c.Outcome("file:FAIL:" + class)
@@ -610,7 +595,7 @@ func verifC11(c *drv.Ctx) {
 	c.R.Rule = "case = (a) one ARP frame (sender address x sender MAC x op x padding; MACs: 00.., ff.., a locally administered one and one per OUI prefix of gopacket's vendor table), " +
 		"(a') a sequence of printed lines over 4 addresses x 5 MACs, (b) a cache file = sequence of line kinds {A, A with other MAC, B, ::ffff: spelling of A, A with unknown fields, " +
 		"no mac, bad mac, bad ip, blank, invalid JSON} x final newline present/absent; every case is a different input; " +
-		"non-trivial = frame with a vendor text not seen before by the shard / sequence in which an address repeats / file of more than one line"
+		"non-trivial = frame whose record carries a vendor text / sequence in which an address repeats / file of more than one line"
 	if err := zzref.JSONSelfTest(); err != nil {
 		c.Infra("reference JSON reader self-test failed: %v", err)
 		return
